@@ -82,19 +82,98 @@ Proof.
   apply s2d_skip.
 Qed.
 
-Theorem dfs_sub_toks l : toks_ok l = true -> dfs_sub true O (render_toks l) = render_mapped l.
+(** the wildcard atom through the second pattern *)
+Lemma s2d_sub_star ds rest : digits_ok ds = true ->
+  s2d_sub O (c_lb :: [c_ast] ++ [c_colon] ++ ds ++ [c_rb] ++ rest) = (c_lb :: c_rb :: ds) ++ s2d_sub O rest.
 Proof.
-  induction l as [|[inner ds|c] r IH]; [reflexivity| |]; cbn [toks_ok render_toks render_tok render_mapped render_tok_mapped].
+  intros Hd. assert (inner_ok [c_ast] = true) as Hi by reflexivity. cbn [s2d_sub]. rewrite N.eqb_refl.
+  assert (forallb not_rb ([c_ast] ++ [c_colon] ++ ds) = true) as H1.
+  { rewrite !forallb_app. simpl. unfold digits_ok in Hd. apply andb_true_iff in Hd. destruct Hd as [_ Hdig].
+    apply forallb_forall. intros x Hx. rewrite forallb_forall in Hdig. specialize (Hdig x Hx). unfold is_digit in Hdig.
+    apply andb_true_iff in Hdig. destruct Hdig as [A B]. apply N.leb_le in A, B. unfold not_rb. apply negb_true_iff, N.eqb_neq. unfold c_rb. lia. }
+  replace ([c_ast] ++ [c_colon] ++ ds ++ [c_rb] ++ rest) with (([c_ast] ++ [c_colon] ++ ds) ++ c_rb :: rest) by (rewrite <- !app_assoc; reflexivity).
+  rewrite (span_stop not_rb _ c_rb rest H1 eq_refl). rewrite (split_last_colon_atom [c_ast] ds Hi Hd).
+  pose proof Hd as Hd2. unfold digits_ok in Hd2. apply andb_true_iff in Hd2. destruct Hd2 as [Hdn Hdd].
+  rewrite Hdn, Hdd. cbn [nonempty andb str_eqb]. rewrite N.eqb_refl. cbn [andb]. f_equal.
+  replace (List.length ([c_ast] ++ [c_colon] ++ ds) + 1)%nat with (List.length (([c_ast] ++ [c_colon] ++ ds) ++ [c_rb])) by (rewrite app_length; simpl; lia).
+  replace (([c_ast] ++ [c_colon] ++ ds) ++ c_rb :: rest) with ((([c_ast] ++ [c_colon] ++ ds) ++ [c_rb]) ++ rest) by (rewrite <- app_assoc; reflexivity).
+  apply s2d_skip.
+Qed.
+
+(** the token string after dfs.replace("[]", "[*]") *)
+Definition render_tok_star (t : dtok) : str := match t with TW ds => c_lb :: c_ast :: c_rb :: ds | _ => render_tok t end.
+Fixpoint render_star (l : list dtok) : str := match l with [] => [] | t :: r => render_tok_star t ++ render_star r end.
+
+Lemma repl_no_lb new l : forall rest, forallb (fun c => negb (N.eqb c c_lb)) l = true ->
+  repl_aux s_empty_br new O (l ++ rest) = l ++ repl_aux s_empty_br new O rest.
+Proof.
+  induction l as [|c t IH]; intros rest H; [reflexivity|]. simpl in H. apply andb_true_iff in H. destruct H as [Hc Ht].
+  cbn [app repl_aux starts_with s_empty_br]. apply negb_true_iff in Hc. rewrite N.eqb_sym in Hc. unfold c_lb in Hc. rewrite Hc. simpl. f_equal. apply IH, Ht.
+Qed.
+Lemma inner_no_lb inner : inner_ok inner = true -> forallb (fun c => negb (N.eqb c c_lb)) inner = true.
+Proof.
+  unfold inner_ok. rewrite andb_true_iff, !forallb_forall. intros [_ H] x Hx. specialize (H x Hx). rewrite !andb_true_iff in H. tauto.
+Qed.
+Lemma digits_no_lb ds : forallb is_digit ds = true -> forallb (fun c => negb (N.eqb c c_lb)) ds = true.
+Proof.
+  rewrite !forallb_forall. intros H x Hx. specialize (H x Hx). unfold is_digit in H. apply andb_true_iff in H. destruct H as [A B].
+  apply N.leb_le in A, B. apply negb_true_iff, N.eqb_neq. unfold c_lb. lia.
+Qed.
+
+Lemma repl_lb_nomatch new x rest : N.eqb x c_rb = false ->
+  repl_aux s_empty_br new O (c_lb :: x :: rest) = c_lb :: repl_aux s_empty_br new O (x :: rest).
+Proof. intros H. cbn [repl_aux starts_with s_empty_br]. rewrite N.eqb_refl. unfold c_rb in H. rewrite (N.eqb_sym 93 x), H. reflexivity. Qed.
+Lemma repl_lb_match new rest :
+  repl_aux s_empty_br new O (c_lb :: c_rb :: rest) = new ++ repl_aux s_empty_br new O rest.
+Proof. reflexivity. Qed.
+Lemma repl_c new c rest : N.eqb c c_lb = false ->
+  repl_aux s_empty_br new O (c :: rest) = c :: repl_aux s_empty_br new O rest.
+Proof. intros H. cbn [repl_aux starts_with s_empty_br]. unfold c_lb in H. rewrite (N.eqb_sym 91 c), H. reflexivity. Qed.
+
+Theorem replace_toks l : toks_ok l = true -> str_replace s_empty_br s_star_br (render_toks l) = render_star l.
+Proof.
+  unfold str_replace. induction l as [|[inner ds|ds|c] r IH]; [reflexivity| | |];
+    cbn [toks_ok render_toks render_tok render_star render_tok_star].
+  - rewrite !andb_true_iff. intros [[[[Hi Hd] _] _] Hr]. unfold digits_ok in Hd. apply andb_true_iff in Hd. destruct Hd as [_ Hdig].
+    pose proof (inner_not_rb inner Hi) as Hrb. pose proof (inner_no_lb inner Hi) as Hlb.
+    destruct inner as [|i0 it]; [discriminate|].
+    assert (N.eqb i0 c_rb = false) as Hi0.
+    { simpl in Hrb. apply andb_true_iff in Hrb. destruct Hrb as [H _]. unfold not_rb in H. apply negb_true_iff in H. exact H. }
+    replace ((c_lb :: (i0 :: it) ++ c_rb :: ds) ++ render_toks r) with (c_lb :: i0 :: (it ++ [c_rb] ++ ds ++ render_toks r))
+      by (simpl; rewrite <- app_assoc; reflexivity).
+    rewrite (repl_lb_nomatch s_star_br i0 _ Hi0).
+    replace (i0 :: it ++ [c_rb] ++ ds ++ render_toks r) with ((i0 :: it) ++ [c_rb] ++ ds ++ render_toks r) by reflexivity.
+    rewrite (repl_no_lb s_star_br (i0 :: it) _ Hlb). rewrite (repl_no_lb s_star_br [c_rb] _ eq_refl).
+    rewrite (repl_no_lb s_star_br ds _ (digits_no_lb ds Hdig)). rewrite (IH Hr). simpl. rewrite <- app_assoc. reflexivity.
+  - rewrite !andb_true_iff. intros [[Hd _] Hr]. unfold digits_ok in Hd. apply andb_true_iff in Hd. destruct Hd as [_ Hdig].
+    replace ((c_lb :: c_rb :: ds) ++ render_toks r) with (c_lb :: c_rb :: (ds ++ render_toks r)) by reflexivity.
+    rewrite repl_lb_match. rewrite (repl_no_lb s_star_br ds _ (digits_no_lb ds Hdig)). rewrite (IH Hr). reflexivity.
+  - rewrite andb_true_iff. intros [Hc Hr]. apply negb_true_iff in Hc. cbn [app]. rewrite (repl_c s_star_br c _ Hc), (IH Hr). reflexivity.
+Qed.
+
+Theorem dfs_sub_toks l : toks_ok l = true -> dfs_sub true O (render_star l) = render_mapped l.
+Proof.
+  induction l as [|[inner ds|ds|c] r IH]; [reflexivity| | |]; cbn [toks_ok render_star render_tok_star render_tok render_mapped render_tok_mapped].
   - rewrite !andb_true_iff. intros [[[[Hi Hd] _] Hs] Hr]. rewrite <- app_comm_cons, <- app_assoc. cbn [app].
-    rewrite (dfs_sub_atom inner ds (render_toks r) Hi Hd Hs), (IH Hr). reflexivity.
+    assert (stops is_digit (render_star r) = true) as Hs'.
+    { destruct r as [|[i2 d2|d2|c2] r2]; simpl in *; auto. }
+    rewrite (dfs_sub_atom inner ds (render_star r) Hi Hd Hs'), (IH Hr). reflexivity.
+  - rewrite !andb_true_iff. intros [[Hd Hs] Hr].
+    assert (stops is_digit (render_star r) = true) as Hs'.
+    { destruct r as [|[i2 d2|d2|c2] r2]; simpl in *; auto. }
+    change (c_lb :: c_ast :: c_rb :: ds) with (c_lb :: [c_ast] ++ c_rb :: ds). rewrite <- app_comm_cons, <- app_assoc. cbn [app].
+    change (c_lb :: c_ast :: c_rb :: ds ++ render_star r) with (c_lb :: [c_ast] ++ c_rb :: ds ++ render_star r).
+    rewrite (dfs_sub_atom [c_ast] ds (render_star r) eq_refl Hd Hs'), (IH Hr). reflexivity.
   - rewrite andb_true_iff. intros [Hc Hr]. cbn [app dfs_sub]. apply negb_true_iff in Hc. rewrite Hc, (IH Hr). reflexivity.
 Qed.
 Theorem s2d_sub_toks l : toks_ok l = true -> s2d_sub O (render_mapped l) = render_toks l.
 Proof.
-  induction l as [|[inner ds|c] r IH]; [reflexivity| |]; cbn [toks_ok render_toks render_tok render_mapped render_tok_mapped].
+  induction l as [|[inner ds|ds|c] r IH]; [reflexivity| | |]; cbn [toks_ok render_toks render_tok render_mapped render_tok_mapped].
   - rewrite !andb_true_iff. intros [[[[Hi Hd] Hst] _] Hr]. apply negb_true_iff in Hst.
     rewrite <- app_comm_cons, <- !app_assoc.
     rewrite (s2d_sub_atom inner ds (render_mapped r) Hi Hd Hst), (IH Hr). cbn [app]. f_equal.
+  - rewrite !andb_true_iff. intros [[Hd _] Hr]. rewrite <- app_comm_cons, <- !app_assoc.
+    rewrite (s2d_sub_star ds (render_mapped r) Hd), (IH Hr). reflexivity.
   - rewrite andb_true_iff. intros [Hc Hr]. cbn [app s2d_sub]. apply negb_true_iff in Hc. rewrite Hc, (IH Hr). reflexivity.
 Qed.
 
@@ -105,28 +184,27 @@ Proof.
   apply orb_false_iff in H. destruct H as [H1 H2]. rewrite H1. f_equal. apply IH, H2.
 Qed.
 
-(** DFS -> SMILES -> DFS on a token string that contains neither "[]" nor "[*]" *)
-Theorem dfs_roundtrip l : toks_ok l = true ->
-  contains s_empty_br (render_toks l) = false -> contains s_star_br (render_toks l) = false ->
+(** DFS -> SMILES -> DFS on a token string (wildcards written "[]" as DFS style does) that does not contain "[*]" *)
+Theorem dfs_roundtrip l : toks_ok l = true -> contains s_star_br (render_toks l) = false ->
   dfs_to_smiles (render_toks l) true = render_mapped l /\ smiles_to_dfs (render_mapped l) = render_toks l /\
   smiles_to_dfs (dfs_to_smiles (render_toks l) true) = render_toks l.
 Proof.
-  intros Hok H1 H2.
+  intros Hok H2.
   assert (dfs_to_smiles (render_toks l) true = render_mapped l) as A.
-  { unfold dfs_to_smiles. rewrite (repl_absent s_empty_br s_star_br _ eq_refl H1). apply dfs_sub_toks, Hok. }
+  { unfold dfs_to_smiles. rewrite (replace_toks l Hok). apply dfs_sub_toks, Hok. }
   assert (smiles_to_dfs (render_mapped l) = render_toks l) as B.
   { unfold smiles_to_dfs. rewrite (s2d_sub_toks l Hok). apply (repl_absent s_star_br s_empty_br _ eq_refl H2). }
   split; [exact A|split; [exact B|]]. rewrite A. exact B.
 Qed.
 
-(** non-vacuity: the docstring example without its wildcards, "[H]1[N]3.C[O]2>>C[O]2.[H]1[N]3" *)
+(** non-vacuity: the docstring example, "[H]1[]3.C[O]2>>C[O]2.[H]1[]3" *)
 Definition ex_dfs : list dtok :=
-  [TA (s2l "H") (s2l "1"); TA (s2l "N") (s2l "3"); TC 46; TC 67; TA (s2l "O") (s2l "2"); TC 62; TC 62; TC 67; TA (s2l "O") (s2l "2"); TC 46;
-   TA (s2l "H") (s2l "12"); TA (s2l "N") (s2l "3")].
+  [TA (s2l "H") (s2l "1"); TW (s2l "3"); TC 46; TC 67; TA (s2l "O") (s2l "2"); TC 62; TC 62; TC 67; TA (s2l "O") (s2l "2"); TC 46;
+   TA (s2l "H") (s2l "1"); TW (s2l "3")].
 Example dfs_roundtrip_ex :
-  toks_ok ex_dfs = true /\ contains s_empty_br (render_toks ex_dfs) = false /\ contains s_star_br (render_toks ex_dfs) = false /\
-  render_toks ex_dfs = s2l "[H]1[N]3.C[O]2>>C[O]2.[H]12[N]3" /\
-  dfs_to_smiles (render_toks ex_dfs) true = s2l "[H:1][N:3].C[O:2]>>C[O:2].[H:12][N:3]".
+  toks_ok ex_dfs = true /\ contains s_star_br (render_toks ex_dfs) = false /\
+  render_toks ex_dfs = s2l "[H]1[]3.C[O]2>>C[O]2.[H]1[]3" /\
+  dfs_to_smiles (render_toks ex_dfs) true = s2l "[H:1][*:3].C[O:2]>>C[O:2].[H:1][*:3]".
 Proof. vm_compute. repeat split. Qed.
 (** outside the domain: a mapped atom followed by a ring-closure digit is read as a longer map number *)
 Example dfs_roundtrip_needs_stop :
